@@ -559,6 +559,15 @@ theorem NInv.kill {v : NView} {log : List WRec} (h : NInv v log) : NInv { v with
   · exact Or.inr ⟨h1, Or.inl h2⟩
   · exact Or.inr ⟨h1, Or.inr ⟨rfl, h3, h4⟩⟩
 
+/-- the close branch also publishes `Closed` -/
+theorem NInv.close {v : NView} {log : List WRec} (h : NInv v log) : NInv { v with alive := false, conn := .closed } log := by
+  refine ⟨h.pub, (fun hh => by cases hh), h.cliEpoch, ?_, h.uniq, h.flight⟩
+  intro w hw
+  rcases h.below w hw with h1 | ⟨h1, h2 | ⟨_, h3, h4⟩⟩
+  · exact Or.inl h1
+  · exact Or.inr ⟨h1, Or.inl h2⟩
+  · exact Or.inr ⟨h1, Or.inr ⟨rfl, h3, h4⟩⟩
+
 theorem onPacket_ninv (A : DecFn) (C : Crypto) (L : Loc) (e : Ep) (bs : Bytes) (log : List WRec)
     (h : NInv (nview e) log) : NInv (nview (onPacket A C L e bs).1) (log ++ sealedOf (onPacket A C L e bs).2) := by
   unfold onPacket
@@ -669,7 +678,7 @@ theorem onClose_ninv (e : Ep) (log : List WRec) (h : NInv (nview e) log) :
       · exact Or.inr ⟨h1, h2⟩
       · rw [hal] at h3; cases h3
     split
-    · have := h.kill
+    · have := h.close
       simpa [sealedOf, nview] using this
     · split
       · rename_i hb
@@ -713,7 +722,7 @@ theorem onClose_ninv (e : Ep) (log : List WRec) (h : NInv (nview e) log) :
           · have := (h.pub h0).1
             simp only [nview] at this h0 hb
             omega
-        refine ⟨h.pub, h.connPub, h.cliEpoch, ?_, ?_, ?_⟩
+        refine ⟨h.pub, (fun hh => by simp [nview] at hh), h.cliEpoch, ?_, ?_, ?_⟩
         · intro w hw
           simp only [sealedOf, if_true, List.mem_append, List.mem_singleton] at hw
           rcases hw with hw | rfl
